@@ -358,9 +358,15 @@ func (g *scopeGen) child(depth int) {
 		if len(e) == 0 {
 			e = []string{"e9"}
 		}
-		g.w("try{throw " + g.nextTag() + "}catch(" + e[0] + "){")
-		g.stack[len(g.stack)-1] = append(g.stack[len(g.stack)-1], e[0])
-		g.markVar("catch", e[0])
+		if r.Bool() {
+			// a catch parameter nobody reads (it may be dropped for ES2019+, and must stay a binding below that), spelled
+			// like a generated short name that is not in the declaration pool
+			g.w("try{throw " + g.nextTag() + "}catch(" + r.Pick([]string{"s", "o", "i", "r"}) + "){")
+		} else {
+			g.w("try{throw " + g.nextTag() + "}catch(" + e[0] + "){")
+			g.stack[len(g.stack)-1] = append(g.stack[len(g.stack)-1], e[0])
+			g.markVar("catch", e[0])
+		}
 		g.body(depth)
 		g.w("}")
 		g.pop()
